@@ -406,6 +406,15 @@ def level2(ctx, witnesses, load_case, case_json, lines, expect):
         except Exception:             # constructs the toy model does not cover (LIMIT {}, min({}), casts)
             return None
 
+    pending = out['pending'] = []
+
+    def defer(line_idx, real, key_attr, key_raw, what, detail):
+        """report after the driver ran: under the known key `key_attr` only if the Lean model of the unchanged
+        rules infers the same as the real compiler for this very term (protocol line `line_idx`); otherwise
+        under `key_raw` (the concrete query).  `line_idx is None`: a fixed text-only witness."""
+        pending.append(dict(line=line_idx, real=real, key_attr=key_attr, key_raw=key_raw, what=what,
+                            detail=detail))
+
     # -- witnesses as text
     for w in witnesses:
         if not w.get('edgeql'):
@@ -417,12 +426,18 @@ def level2(ctx, witnesses, load_case, case_json, lines, expect):
         out['witness_texts'] += 1
         if vals is None or ' ' not in real:
             continue
+        li = None
+        if w.get('term') is not None:
+            li = len(lines)
+            lines.append(f'infer {M.schema_line(sch)}|{M.term_line(t)}')
+            expect.append(('winfer2', real, (w['edgeql'], sch, db, t)))
         for kind, what in oracle_term(real + ' 0', vals):
             out['witness_failures'] += 1
-            ctx.fail(finding_key(kind, w['class']), what + ' (real compiler on EdgeQL text; reference: toy_eval_model)',
-                     {'edgeql': w['edgeql'], 'sdl': w['sdl'], 'compiler': real, 'result': vals,
-                      'case': case_json(sch, db, t) if w.get('term') is not None else None,
-                      'db': case_json(sch, db, ('empty',))['db'], 'comment': w.get('comment'), 'level': 2})
+            defer(li, real, finding_key(kind, w['class']), f"oracle2:{kind}:{w['edgeql']}",
+                  what + ' (real compiler on EdgeQL text; reference: toy_eval_model)',
+                  {'edgeql': w['edgeql'], 'sdl': w['sdl'], 'compiler': real, 'result': vals,
+                   'case': case_json(sch, db, t) if w.get('term') is not None else None,
+                   'db': case_json(sch, db, ('empty',))['db'], 'comment': w.get('comment'), 'level': 2})
 
     # -- every FILTER x OFFSET x LIMIT combination in one SELECT (top level, operand, shape element)
     from edb.ir import ast as irast
@@ -487,6 +502,30 @@ def level2(ctx, witnesses, load_case, case_json, lines, expect):
                          {'edgeql': q, 'sdl': L2.sdl_of(csch), 'compiler': real, 'result': vals,
                           'case': case_json(csch, L2.COMBO_DB, t), 'level': 2})
 
+    # -- nested FOR over a duplicate inner iterator (fixed shapes)
+    out['nested_for_shapes'] = 0
+    for c in L2.nested_for_shapes():
+        q, t = c['text'], c['term']
+        out['nested_for_shapes'] += 1
+        real = compile_(crs, q)
+        vals = toy_text(ctoy, q) if ' ' in real else None
+        sl, tl = M.schema_line(csch), M.term_line(t)
+        li = len(lines)
+        lines.append(f'infer {sl}|{tl}')
+        expect.append(('infer2', real, (q, csch, L2.COMBO_DB, t)))
+        lines.append(f'eval {sl}|{M.db_line(L2.COMBO_DB)}|{tl}')
+        expect.append(('eval2', None if vals is None else (' '.join(vals) or '-'), (q, csch, L2.COMBO_DB, t)))
+        if vals is not None:
+            out['oracle_checks'] += 1
+            for kind, what in oracle_term(real + ' 0', vals):
+                out['oracle_failures'] += 1
+                cls = classify(csch, t, kind)
+                raw = f"oracle2:{kind}:shape:{c['name']}"
+                defer(li, real, finding_key(kind, cls) if cls else raw, raw,
+                      what + ' (real compiler on EdgeQL text; reference: toy_eval_model)',
+                      {'edgeql': q, 'sdl': L2.sdl_of(csch), 'compiler': real, 'result': vals,
+                       'case': case_json(csch, L2.COMBO_DB, t), 'level': 2})
+
     # -- UNION of object types under inheritance
     hsch = dict(L2.HIER_SCHEMA, fns=[dict(f) for f in M.STD_FNS])
     hrs = schema(L2.sdl_of(hsch))
@@ -498,6 +537,7 @@ def level2(ctx, witnesses, load_case, case_json, lines, expect):
         real = compile_(hrs, q)
         vals = toy_text(htoy, q) if ' ' in real else None
         sl, tl = M.schema_line(hsch), M.term_line(t)
+        li = len(lines)
         lines.append(f'infer {sl}|{tl}')
         expect.append(('infer2', real, (q, hsch, L2.HIER_DB, t)))
         lines.append(f'eval {sl}|{M.db_line(L2.HIER_DB)}|{tl}')
@@ -506,12 +546,13 @@ def level2(ctx, witnesses, load_case, case_json, lines, expect):
             out['oracle_checks'] += 1
             for kind, what in oracle_term(real + ' 0', vals):
                 out['oracle_failures'] += 1
+                raw = f"oracle2:{kind}:pair:{c['name']}"
                 key = (finding_key(kind, 'union-with-union-type-operand-taken-as-disjoint') if c['nested']
-                       else f"oracle2:{kind}:pair:{c['name']}")
-                ctx.fail(key, what + ' (real compiler on EdgeQL text; reference: toy_eval_model with the '
-                         'supertype expanded into the union of its exact subtypes)',
-                         {'edgeql': q, 'toy_text': L2.toy_text(q, hsch), 'sdl': L2.sdl_of(hsch), 'compiler': real,
-                          'result': vals, 'case': case_json(hsch, L2.HIER_DB, t), 'level': 2})
+                       else raw)
+                defer(li, real, key, raw, what + ' (real compiler on EdgeQL text; reference: toy_eval_model with '
+                      'the supertype expanded into the union of its exact subtypes)',
+                      {'edgeql': q, 'toy_text': L2.toy_text(q, hsch), 'sdl': L2.sdl_of(hsch), 'compiler': real,
+                       'result': vals, 'case': case_json(hsch, L2.HIER_DB, t), 'level': 2})
 
     # -- random well-typed queries
     rng = ctx.rng
@@ -542,6 +583,7 @@ def level2(ctx, witnesses, load_case, case_json, lines, expect):
             if vals is None and ' ' in real:
                 out['toy_skipped'] += 1
             sl, tl = M.schema_line(sch), M.term_line(t)
+            li = len(lines)
             lines.append(f'infer {sl}|{tl}')
             expect.append(('infer2', real, (q, sch, db, t)))
             lines.append(f'eval {sl}|{M.db_line(db)}|{tl}')
@@ -551,9 +593,9 @@ def level2(ctx, witnesses, load_case, case_json, lines, expect):
             if vals is not None:
                 out['oracle_checks'] += 1
                 for kind, what in oracle_term(real + ' 0', vals):
-                    recs.append((q, sdl, sch, db, t, real, vals, kind, what))
+                    recs.append((q, sdl, sch, db, t, real, vals, kind, what, li))
 
-    for (q, sdl, sch, db, t, real, vals, kind, what) in recs:
+    for (q, sdl, sch, db, t, real, vals, kind, what, li) in recs:
         out['oracle_failures'] += 1
         # attribute through the level-1 machinery (same term on hand-built IR), shrinking there
         def fails(case, kind=kind):
@@ -572,10 +614,11 @@ def level2(ctx, witnesses, load_case, case_json, lines, expect):
                 cls = classify(small[0], small[2], kind)
         except Exception:
             cls = None
-        key = finding_key(kind, cls) if cls else f'oracle2:{kind}:{q}'
-        ctx.fail(key, what + ' (real compiler on EdgeQL text; reference: toy_eval_model)',
-                 {'edgeql': q, 'sdl': sdl, 'compiler': real, 'result': vals, 'case': case_json(sch, db, t),
-                  'rule_class': cls, 'level': 2})
+        raw = f'oracle2:{kind}:{q}'
+        defer(li, real, finding_key(kind, cls) if cls else raw, raw,
+              what + ' (real compiler on EdgeQL text; reference: toy_eval_model)',
+              {'edgeql': q, 'sdl': sdl, 'compiler': real, 'result': vals, 'case': case_json(sch, db, t),
+               'rule_class': cls, 'level': 2})
     out['wall_s'] = round(time.time() - t0, 1)
     return out
 
@@ -661,6 +704,9 @@ def run(ctx: core.Ctx):
         # every FILTER x OFFSET x LIMIT combination in one SELECT, over sources of each cardinality
         from lib import c06_level2 as L2
         combo_sch = dict(L2.COMBO_SCHEMA, fns=[dict(f) for f in M.STD_FNS])
+        # nested FOR over a duplicate inner iterator with a body rooted in the outer variable (fixed, first)
+        for c in L2.nested_for_shapes():
+            cases.append(('shape:' + c['name'], combo_sch, L2.COMBO_DB, c['term']))
         for c in L2.stmt_combos():
             if c['pos'] != 'shape':
                 cases.append(('combo:' + c['name'], combo_sch, L2.COMBO_DB, c['term']))
@@ -751,7 +797,7 @@ def run(ctx: core.Ctx):
             raise
         except ImportError as e:
             l2 = {'available': False, 'why': f'bridge not importable: {e}'}
-        ctx.log('level 2:', {k: v for k, v in l2.items() if k not in ('samples',)})
+        ctx.log('level 2:', {k: v for k, v in l2.items() if k not in ('samples', 'pending')})
 
     try:
         model = ctx.driver('C06', lines)
@@ -767,16 +813,19 @@ def run(ctx: core.Ctx):
         raise core.Infra(f'driver returned {len(model)} lines for {len(lines)}')
 
     # ---- compare
-    dis = {'comb': 0, 'infer': 0, 'eval': 0, 'infer2': 0, 'eval2': 0, 'shape2': 0}
+    dis = {'comb': 0, 'infer': 0, 'eval': 0, 'infer2': 0, 'eval2': 0, 'shape2': 0, 'winfer2': 0}
     n_eval_cmp = 0
     model_eval = {}
+    model_infer = {}      # id(term) -> what the Lean model of the UNCHANGED rules infers for that very term
     for line, (stream, real, payload), mout in zip(lines, expect, model or []):
+        if stream == 'infer':
+            model_infer[id(payload[3])] = mout
         if stream == 'eval':
             model_eval[id(payload[3]), id(payload[2])] = mout
             if real is None:
                 continue            # the toy model does not cover this term; the Lean value is used by the oracle
             n_eval_cmp += 1
-        if stream == 'infer2':
+        if stream in ('infer2', 'winfer2'):
             mout = ' '.join(mout.split(' ')[:2]) if ' ' in mout else mout
         if stream == 'shape2':
             mout = mout.split(' ')[0]
@@ -790,6 +839,7 @@ def run(ctx: core.Ctx):
                     'infer': 'Lean inferCard/inferMult and the real inference disagree',
                     'eval': 'Lean eval and toy_eval_model disagree',
                     'infer2': 'Lean inferCard/inferMult and the real compiler (EdgeQL text) disagree',
+                    'winfer2': 'Lean inferCard/inferMult and the real compiler (witness EdgeQL text) disagree',
                     'shape2': 'Lean inferCard and the cardinality the real compiler gives a computed shape element disagree',
                     'eval2': 'Lean eval and toy_eval_model (EdgeQL text) disagree'}[stream]
             detail = {'line': line, 'real': real, 'model': mout,
@@ -797,14 +847,29 @@ def run(ctx: core.Ctx):
                                  'infer': 'infer_cardinality/infer_multiplicity on hand-built IR vs Model/MiniQL.lean',
                                  'eval': 'toy_eval_model vs MiniQL.eval',
                                  'infer2': 'compile_ast_to_ir(text).cardinality/multiplicity vs Model/MiniQL.lean',
+                                 'winfer2': 'compile_ast_to_ir(witness text) vs Model/MiniQL.lean',
                                  'shape2': 'shape element ptrref.out_cardinality vs Model/MiniQL.lean inferCard',
                                  'eval2': 'toy_eval_model(text) vs MiniQL.eval'}[stream]}
-            if stream in ('infer2', 'eval2', 'shape2'):
+            if stream in ('infer2', 'eval2', 'shape2', 'winfer2'):
                 detail['edgeql'] = payload[0]
                 detail['case'] = case_json(*payload[1:])
             elif stream != 'comb':
                 detail['case'] = case_json(*payload[1:])
             ctx.fail(f'corr:{stream}:{line}', what, detail, no_input=True)
+
+    # ---- level-2 oracle failures: attribute to a known rule only when the model reproduces the divergence
+    for pnd in l2.pop('pending', []):
+        attributed = pnd['line'] is None
+        mout = None
+        if pnd['line'] is not None and model is not None:
+            mout = model[pnd['line']]
+            mout = ' '.join(mout.split(' ')[:2]) if ' ' in mout else mout
+            attributed = mout == pnd['real']
+        if attributed:
+            ctx.fail(pnd['key_attr'], pnd['what'], pnd['detail'])
+        else:
+            ctx.fail(pnd['key_raw'], pnd['what'] + f"; the Lean model of the unchanged rules infers {mout!r} for "
+                     f"this term, the real compiler {pnd['real']!r}", dict(pnd['detail'], model_inference=mout))
 
     # ---- S: the property's oracle on the real outputs
     def fails_kind(kind):
@@ -835,6 +900,19 @@ def run(ctx: core.Ctx):
         n_oracle += 1
         for kind, what in oracle_term(real, vals):
             case = (sch, db, t)
+            # A failure is attributed to a known rule class ONLY IF the Lean model of the unchanged rules
+            # predicts the same (wrong) answer for this very term: then the divergence is the modelled, known
+            # defect.  If the model disagrees with the real inference here, the real code does something the
+            # transcribed rules do not: report it with the concrete input, never under a known key.
+            reproduced = model_infer.get(id(t)) == real
+            if not reproduced:
+                key = f'oracle:{kind}:unmodelled:{M.term_line(t)}'
+                viol_classes[key] = viol_classes.get(key, 0) + 1
+                ctx.fail(key, what + f' (reference: {ref}); the Lean model of the unchanged rules infers '
+                         f'{model_infer.get(id(t))!r} for this term, the real inference {real!r}',
+                         {'case': case_json(*case), 'term_line': M.term_line(t), 'real_inference': real,
+                          'model_inference': model_infer.get(id(t)), 'result': vals, 'stream': stream})
+                continue
             if ref == 'toy_eval_model':
                 case = shrink(case, fails_kind(kind), budget=ctx.budget(300, 600))
             cls = classify(case[0], case[2], kind)
@@ -845,7 +923,7 @@ def run(ctx: core.Ctx):
             if not cls and stream.startswith('pair3:'):
                 cls = 'union-with-union-type-operand-taken-as-disjoint'
                 key = finding_key(kind, cls)
-            if not cls and (stream.startswith('combo:') or stream.startswith('pair:')):
+            if not cls and (stream.startswith('combo:') or stream.startswith('pair:') or stream.startswith('shape:')):
                 key = f'oracle:{kind}:{stream}'
             viol_classes[key] = viol_classes.get(key, 0) + 1
             r2 = real_infer(case[0], case[2])
